@@ -400,31 +400,69 @@ def check_endpoint(ctx, case):
 
 
 def check_loops_direct(ctx, case):
-  """constant_liar_acquisition_function_optimization / search_strategy_optimization leave the caller's objects unchanged."""
+  """constant_liar_acquisition_function_optimization / search_strategy_optimization leave the caller's objects unchanged:
+  every model reachable from the caller's acquisition function (its predictor, a wrapped function's predictor, the failure
+  models' predictors) reports the same data, and the function evaluates to the same numbers at probe points, afterwards."""
   from libsigopt.compute.acquisition_function_optimization import constant_liar_acquisition_function_optimization
   from libsigopt.compute.domain import ContinuousDomain
-  from libsigopt.compute.expected_improvement import ExpectedImprovement
+  from libsigopt.compute.expected_improvement import AugmentedExpectedImprovement, ExpectedImprovement, ExpectedImprovementWithFailures
+  from libsigopt.compute.multitask_acquisition_function import MultitaskAcquisitionFunction
+  from libsigopt.compute.probabilistic_failures import ProbabilisticFailuresCDF
   numpy.random.seed(case["np_seed"])
-  gp = make_gp(case["pts"], case["vals"], case["noise"])
-  af = ExpectedImprovement(gp)
-  dom = ContinuousDomain([[0.0, 1.0]] * len(case["pts"][0]))
-  before = pickle.dumps((af.predictor.points_sampled, af.predictor.points_sampled_value, af.predictor.points_sampled_noise_variance,
-                         af.best_value, af.best_location, af.predictor.K_inv_y))
-  with Recorder() as rec:
-    pts, _ = constant_liar_acquisition_function_optimization(dom, af, case["k"])
-  after = pickle.dumps((af.predictor.points_sampled, af.predictor.points_sampled_value, af.predictor.points_sampled_noise_variance,
-                        af.best_value, af.best_location, af.predictor.K_inv_y))
+  kind = case.get("af_kind", "ei")
+  pts = [list(p) for p in case["pts"]]
+  dim = len(pts[0])
+  bounds = [[0.0, 1.0]] * dim
+  if kind.startswith("multitask"):
+    # the last coordinate is the task cost: strictly positive, domain [0.1, 1]
+    if dim == 1:
+      pts = [p + [0.5] for p in pts]
+      dim = 2
+    for p in pts:
+      p[-1] = min(1.0, max(0.1, p[-1]))
+    bounds = [[0.0, 1.0]] * (dim - 1) + [[0.1, 1.0]]
+  gp = make_gp(pts, case["vals"], case["noise"])
+  models = [gp]
+  if kind in ("ei", "multitask"):
+    inner = ExpectedImprovement(gp)
+  elif kind in ("aei", "multitask_aei"):
+    inner = AugmentedExpectedImprovement(gp)
+  else:
+    fgp = make_gp(pts, [v * -0.7 + 0.1 for v in case["vals"]], case["noise"], alpha=0.8, ls=0.5)
+    models.append(fgp)
+    inner = ExpectedImprovementWithFailures(gp, ProbabilisticFailuresCDF(fgp, float(numpy.median(fgp.points_sampled_value))))
+  af = MultitaskAcquisitionFunction(inner) if kind.startswith("multitask") else inner
+  dom = ContinuousDomain(bounds)
+  probes = numpy.array([[b[0] + (b[1] - b[0]) * f for b in bounds] for f in (0.21, 0.5, 0.83)], dtype=float)
+
+  def snap():
+    objs = [af] + ([af.underlying] if hasattr(af, "underlying") else [])
+    data = [(m.points_sampled, m.points_sampled_value, m.points_sampled_noise_variance, m.K_inv_y) for m in models]
+    data += [(o.predictor.points_sampled, o.predictor.points_sampled_value, o.best_value, o.best_location) for o in objs]
+    return pickle.dumps((data, numpy.asarray(af.evaluate_at_point_list(probes.copy()), dtype=float)))
+  before = snap()
+  import libsigopt.compute.acquisition_function_optimization as afo
+  orig_maxiter = getattr(afo, "find_optimizer_maxiter", None)
+  if orig_maxiter is not None and case.get("maxiter") is not None:
+    afo.find_optimizer_maxiter = lambda **kw: case["maxiter"]   # the optimizers' effort is C07's subject; keep the loop cheap
+  try:
+    with Recorder() as rec:
+      out, _ = constant_liar_acquisition_function_optimization(dom, af, case["k"])
+  finally:
+    if orig_maxiter is not None:
+      afo.find_optimizer_maxiter = orig_maxiter
+  after = snap()
   if before != after:
-    ctx.violation("C15 constant-liar optimisation modified the caller's acquisition function / model", {"case": case})
+    ctx.violation(f"C15 constant-liar optimisation modified the caller's acquisition function / model ({kind})", {"case": case, "af_kind": kind})
     return
   sees = [e for e in rec.events if e[0] == "cl_pick_sees"]
-  n0 = len(case["pts"])
-  for i, s in enumerate(sees):
-    if s[1] != n0 + i or not rows_equal(s[2][n0:], pts[:i].reshape(i, -1) if i else numpy.empty((0, len(case["pts"][0])))):
-      ctx.violation("C15 constant-liar pick is not conditioned on lies at exactly the previous picks", {"case": case, "pick": i})
+  n0 = len(pts)
+  for i, s_ in enumerate(sees):
+    if s_[1] != n0 + i or not rows_equal(s_[2][n0:], out[:i].reshape(i, -1) if i else numpy.empty((0, dim))):
+      ctx.violation("C15 constant-liar pick is not conditioned on lies at exactly the previous picks", {"case": case, "pick": i, "af_kind": kind})
       return
   ctx.traces += 1
-  ctx.count("constant-liar direct")
+  ctx.count("constant-liar direct " + kind)
 
 
 def gen_ops_gp(rng, dim, n_ops):
@@ -497,7 +535,8 @@ def gen_case(rng, kind, tier):
   if kind == "loop":
     n = rng.randint(3, 8)
     pts, vals, noise = gen_hist(rng, dim, n)
-    return {"kind": "loop", "pts": pts, "vals": vals, "noise": noise, "k": rng.randint(2, 3), "np_seed": rng.randrange(2 ** 31)}
+    return {"kind": "loop", "pts": pts, "vals": vals, "noise": noise, "k": rng.randint(2, 3), "np_seed": rng.randrange(2 ** 31),
+            "af_kind": rng.choice(["ei", "aei", "eif", "multitask", "multitask", "multitask_aei"])}
   raise ValueError(kind)
 
 
@@ -558,3 +597,11 @@ def run(ctx, scale):
         return
   for _ in range(1 if ctx.tier == "quick" else 10):
     check_case(ctx, gen_case(rng, "loop", ctx.tier))
+  # the same loop on every kind of acquisition function the endpoints hand to it (wrapped, with failure models), cheap optimizers
+  for _ in range((1 if ctx.tier == "quick" else 6) * scale):
+    for kind in ["ei", "aei", "eif", "multitask", "multitask_aei"]:
+      c = gen_case(rng, "loop", ctx.tier)
+      c["af_kind"], c["maxiter"] = kind, rng.choice([2, 4])
+      check_case(ctx, c)
+      if len(ctx.violations) >= 5:
+        return
